@@ -127,7 +127,7 @@ theorem idft2_dft2_full_period (f : Arr ℂ) (m n : ℕ) (hm : f.s0 = m) (hn : f
     (idft2 (dft2 f (1 / (m : ℝ)) (1 / (n : ℝ)) m n 0 0 0 0 unitary) (1 / (m : ℝ)) (1 / (n : ℝ)) m n 0 0 unitary).get x y
       = f.get x y := by
   rw [idft2_get_eq]
-  simp only [dft2_s0, dft2_s1, Int.toNat_natCast, dft2_get_eq]
+  simp only [dft2C_s0, dft2C_s1, Int.toNat_natCast, dft2_get_eq]
   rw [pull_const]
   unfold dft2Sum
   simp only [hm, hn, Int.toNat_natCast]
